@@ -32,6 +32,9 @@ def run(ctx):
         oi, om = outcome_of(i), outcome_of(m)
         if oi[0] in ("CRASH", "PANIC", "NILNIL"):
             stats["crash"] += 1
+            if crash_explained(ctx, i):
+                stats["crashes_explained_by_known_findings"] = stats.get("crashes_explained_by_known_findings", 0) + 1
+                continue
             ctx.add_broken("correspondence: a pattern crashed the pattern-to-automaton pipeline (see C14): %r" % p, i[:300])
             continue
         if oi[0] != "OK":
